@@ -8,11 +8,15 @@ def C(pid, level, technique, text, note, ref):
     CHECKS[pid] = dict(level=level, technique=technique, text=text, note=note, ref=ref)
 
 C("C20", "exploration",
-  "exhaustive enumeration of all import/attribute reference sites and import roots, each decided by executing the lookup",
+  "exhaustive enumeration of all import/attribute reference sites and import roots, each decided by executing the lookup; plus a bounded exhaustive walk over the public API of live objects",
   "Every one of the ~1150 third-party/stdlib reference sites in the package source (incl. the custom sub-packages that cannot "
-  "run here) is resolved by executing the lookup against the installed libraries, and every package module is imported in a "
-  "fresh interpreter from a scratch copy. Finite space, completely enumerated; only the installed dependency versions.",
-  "trusts Python's import system and getattr on modules/classes; names reached through instances are not resolved; other "
+  "run here) is resolved by executing the lookup against the installed libraries (keyword arguments of calls to resolved functions "
+  "are checked against the installed signature), and every package module is imported in a fresh interpreter from a scratch copy. "
+  "Finite space, completely enumerated; only the installed dependency versions. In addition ~50 live objects (signals, media, the four "
+  "tracers and their paths, antennas/detectors, generators/particles, an HDF5 file and its events) have every public attribute read and every "
+  "public method called with every combination (<= 48) of values from a per-parameter menu; exceptions naming a missing third-party / "
+  "stdlib attribute, keyword or positional slot are violations.",
+  "trusts Python's import system and getattr on modules/classes; names reached through instances are resolved only on the walked paths; other "
   "versions in the declared range cannot be installed offline", "DESIGN.md §4 C20")
 
 exec(open(os.path.join(ROOT, "tools", "manifest_table.py")).read()) if os.path.exists(os.path.join(ROOT, "tools", "manifest_table.py")) else None
